@@ -1,16 +1,89 @@
 package props
 
 import (
+	"crypto/sha256"
 	"encoding/hex"
 	"fmt"
+	"math/rand"
 	"strings"
 
+	"verifharness/client"
 	"verifharness/core"
+	"verifharness/menv"
 	"verifharness/wworld"
 
+	"github.com/btcsuite/btcd/btcec/v2"
 	"github.com/elnosh/gonuts/cashu"
 	"github.com/elnosh/gonuts/cashu/nuts/nut11"
 )
+
+// lockAttempts presents ecash that a wallet locked through the library's API to the mint with
+// witnesses of several classes, before the receiver redeems it, and judges every verdict of the
+// mint with the independent evaluator applied to the configuration the sender *asked for* (not to
+// the secret the library wrote): a lock that turns out weaker than requested lets a stranger
+// spend, one that is stricter refuses a signer the sender authorised. Returns true when an
+// attempt went through (the proofs are spent then).
+func lockAttempts(r *core.Run, env *menv.Env, rng *rand.Rand, req lockCfg, proofs cashu.Proofs, preimage string, lk *lockKeys, caseName, sig string) bool {
+	type attempt struct {
+		class string
+		specs []sigSpec
+		pre   *string
+	}
+	var atts []attempt
+	wrongPre := strings.Repeat("cd", 32)
+	if req.Kind == "HTLC" {
+		atts = []attempt{
+			{"preimage-only", nil, &preimage},
+			{"preimage+foreign-key", []sigSpec{{key: lk.F}}, &preimage},
+			{"wrong-preimage+cosigner", []sigSpec{{key: lk.Co[0]}}, &wrongPre},
+			{"preimage+cosigner", []sigSpec{{key: lk.Co[0]}}, &preimage},
+		}
+	} else {
+		atts = []attempt{
+			{"no-signature", nil, nil},
+			{"foreign-key", []sigSpec{{key: lk.F}}, nil},
+			{"cosigner", []sigSpec{{key: lk.Co[0]}}, nil},
+		}
+	}
+	env.RefreshKeysets()
+	act := env.Active()
+	for _, a := range atts {
+		in := make(cashu.Proofs, len(proofs))
+		want := true
+		for i, p := range proofs {
+			p.Witness = buildWitness([]byte(p.Secret), a.specs, a.pre, false)
+			p.DLEQ = nil
+			in[i] = p
+			if !authorisedInput(req, p.Secret, p.Witness) {
+				want = false
+			}
+		}
+		if want && (req.Sigflag == "SIG_ALL" || !strings.Contains(caseName, "cosigner")) {
+			// authorised spends are left to the receiver's own path, except in the cases made for the
+			// co-signer (whose key the harness holds); under SIG_ALL the outputs would need signing too
+			continue
+		}
+		total := client.Sum(in)
+		fee := client.FeeFor(in, env.Keysets)
+		if total <= fee {
+			continue
+		}
+		outs := client.Outputs(rng, act.Id, client.Split(total-fee))
+		_, err := env.Swap(in, client.BMs(outs))
+		r.Count("wallet_level_lock_attempts", 1)
+		r.Eval(sig+"/attempt/"+a.class, true)
+		switch {
+		case err == nil && !want:
+			r.Violate("wallet:lock-weaker-than-requested:"+caseName+":"+a.class, fmt.Sprintf("ecash locked through the wallet API with %s (%s) was spent with a witness of class %s, which the requested condition does not authorise", caseName, req.Desc(), a.class), sig, map[string]any{"secret": proofs[0].Secret, "witness": in[0].Witness})
+			return true
+		case err != nil && want:
+			r.Violate("wallet:lock-stricter-than-requested:"+caseName+":"+a.class, fmt.Sprintf("ecash locked through the wallet API with %s (%s) could not be spent with a witness of class %s, which the requested condition authorises: %v", caseName, req.Desc(), a.class, err), sig, map[string]any{"secret": proofs[0].Secret, "witness": in[0].Witness})
+		case err == nil:
+			return true
+		}
+	}
+	return false
+}
 
 // lockWalletLevel: the library's own wallet paths end to end. A sender wallet locks ecash
 // with every tag combination its API offers (none, SIG_ALL, a signature threshold naming
@@ -51,13 +124,18 @@ func lockWalletLevel(r *core.Run, kind string) {
 				{"no-tags", nil},
 				{"SIG_ALL", &nut11.P2PKTags{Sigflag: nut11.SIGALL}},
 			}
+			// a co-signer whose key the harness holds: listed next to a threshold of one, it may sign instead of
+			// the lock key (P2PK); named as the only signer of a hash lock, nobody opens the lock without it
+			lk := newLockKeys(rng)
+			co := lk.Co[0]
+			cases = append(cases, tagCase{"n_sigs=1+cosigner", &nut11.P2PKTags{NSigs: 1, Pubkeys: []*btcec.PublicKey{co.PubKey()}}})
 			if kind == "HTLC" {
 				cases = append(cases,
 					tagCase{"n_sigs=1+receiver-key", &nut11.P2PKTags{NSigs: 1}},
 					tagCase{"SIG_ALL+n_sigs=1+receiver-key", &nut11.P2PKTags{Sigflag: nut11.SIGALL, NSigs: 1}},
 				)
-				cases[2].tags.Pubkeys = append(cases[2].tags.Pubkeys, bKey)
 				cases[3].tags.Pubkeys = append(cases[3].tags.Pubkeys, bKey)
+				cases[4].tags.Pubkeys = append(cases[4].tags.Pubkeys, bKey)
 			}
 			for ci, c := range cases {
 				for _, amount := range []uint64{3, 7, 64} { // two proofs (more than their fee), three proofs, exactly a denomination
@@ -87,6 +165,26 @@ func lockWalletLevel(r *core.Run, kind string) {
 						}
 						r.Eval(sig, true)
 						r.Count("wallet_level_tokens_redeemed", 1)
+						// what the sender asked the library for, as the independent evaluator reads it
+						req := lockCfg{Kind: kind, NSigs: -1}
+						if kind == "HTLC" {
+							h := sha256.Sum256(pre)
+							req.Data = hex.EncodeToString(h[:])
+						} else {
+							req.Data = hex.EncodeToString(bKey.SerializeCompressed())
+						}
+						if c.tags != nil {
+							if c.tags.NSigs > 0 {
+								req.NSigs = c.tags.NSigs
+							}
+							for _, k := range c.tags.Pubkeys {
+								req.Pubkeys = append(req.Pubkeys, hex.EncodeToString(k.SerializeCompressed()))
+							}
+							req.Sigflag = c.tags.Sigflag
+						}
+						if lockAttempts(r, w.Mints[0].Env, rng, req, proofs, preimage, lk, c.name, sig) {
+							continue // the ecash is gone
+						}
 						if kind == "HTLC" {
 							wrong := strings.Repeat("ab", 32)
 							if got, err := b.ReceiveHTLC(tok, wrong); err == nil {
